@@ -1,4 +1,5 @@
-"""C06 facts: the shape of the two caches in glom/core.py (Path.from_text, get_handler, register)."""
+"""C06 facts: the shape of the two caches in glom/core.py (Path.from_text, get_handler, register) and of
+the per-evaluation variable holder (Vars.glomit, ScopeVars.__init__)."""
 import ast
 
 
@@ -56,10 +57,34 @@ def extract(ctx):
             continue
         src = [ast.unparse(s) for s in ast.walk(fn) if isinstance(s, ast.Assign)]
         resets.append((name, 'self._type_cache = {}' in src))
-    return [('C06Facts', 'shape of Path.from_text, of the handler memo and of its resets',
+    # the memo key is built from the exact type of the object
+    memo_key_type = ''
+    if gh is not None:
+        for n in ast.walk(gh):
+            if isinstance(n, ast.Assign) and ast.unparse(n.targets[0]) == 'obj_type':
+                memo_key_type = ast.unparse(n)
+    # Vars / ScopeVars: the holder an evaluation writes into is built from a copy of the spec's mapping
+    sv_init = find_def(tree, '__init__', cls='ScopeVars')
+    sv_shape = []
+    if sv_init is None:
+        P.add('ScopeVars.__init__ not found')
+    else:
+        sv_shape = [ast.unparse(x).replace('\n', ' ; ').strip() for x in sv_init.body
+                    if not (isinstance(x, ast.Expr) and isinstance(getattr(x, 'value', None), ast.Constant))]
+    vg = find_def(tree, 'glomit', cls='Vars')
+    vg_shape = []
+    if vg is None:
+        P.add('Vars.glomit not found')
+    else:
+        vg_shape = [ast.unparse(x).replace('\n', ' ; ').strip() for x in vg.body
+                    if not (isinstance(x, ast.Expr) and isinstance(getattr(x, 'value', None), ast.Constant))]
+    return [('C06Facts', 'shape of Path.from_text, of the handler memo and of its resets, of Vars / ScopeVars',
              [('fromTextShape', 'List String', shape),
               ('maxCache', 'Nat', max_cache),
               ('pathCacheInit', 'String', cache_init),
               ('createUsesPathStar', 'Bool', create_uses_star),
               ('getHandlerShape', 'List String', gh_shape),
-              ('memoResetBy', 'List (String × Bool)', resets)])]
+              ('memoResetBy', 'List (String × Bool)', resets),
+              ('memoKeyType', 'String', memo_key_type),
+              ('scopeVarsInitShape', 'List String', sv_shape),
+              ('varsGlomitShape', 'List String', vg_shape)])]
